@@ -114,6 +114,8 @@ def to_events(trace):
         op, loc, num, val = m.group(1), m.group(2), m.group(3), m.group(4)
         if loc == "c":
             v = int(val)
+            if v < 0:
+                raise ValueError("the counter wrapped below zero: " + tok)
             if op == "fetch_add":
                 if who in attach and attach[who][1] == 0:
                     evs.append("EFAdd %d %d" % (attach[who][0], v))
@@ -279,12 +281,15 @@ def plan(ck):
     quick = ck.tier != "thorough"
     jobs = []
     small = ["wg/block_vs_done", "wg/inline_vs_done", "wg/sticky_vs_done", "wg/on_vs_done", "wg/add_done",
-             "wg/two_waiters", "wg/attach_vs_set", "wg/consume_vs_set", "ose/job_vs_set", "ose/block_vs_set",
-             "ose/inline_vs_set", "ose/on_vs_set", "ose/two_jobs"]
+             "wg/two_waiters", "wg/attach_vs_set", "wg/consume_alone", "ose/job_vs_set", "ose/block_vs_set",
+             "ose/inline_vs_set", "ose/on_vs_set", "ose/two_jobs"] + ([] if quick else ["wg/consume_vs_set"])
     for n in small:
         jobs.append(dict(name=n, args=["--mode", "dfs", "--exact", n], cfg="F", exhaustive=True))
     for dl in ([10, 30] if quick else [10, 20, 30, 50, 80]):
         n = "wg/timed_vs_done/dl=%d" % dl
+        jobs.append(dict(name=n, args=["--mode", "dfs", "--exact", n], cfg="F", exhaustive=True))
+    for dl in ([20] if quick else [10, 30]):
+        n = "wg/until_vs_done/dl=%d" % dl       # the same race through WaitUntil
         jobs.append(dict(name=n, args=["--mode", "dfs", "--exact", n], cfg="F", exhaustive=True))
     for dl in ([10] if quick else [10, 20, 30, 50, 80]):
         n = "ose/timed_vs_set/dl=%d" % dl
@@ -328,7 +333,9 @@ def main(ck):
         exes[cfg], _ = vlib.compile_harness(cfg, [HARNESS], "c16")
 
     def run(j):
-        return j, runner.run_harness(exes[j["cfg"]], j["args"], timeout=1500)
+        # under ASan: abort on the first report, so that the harness' signal handler prints the decision vector
+        env = dict(ASAN_OPTIONS="detect_leaks=1:detect_stack_use_after_return=1:abort_on_error=1:exitcode=71") if j["cfg"] == "FA" else None
+        return j, runner.run_harness(exes[j["cfg"]], j["args"], timeout=1500, env=env)
 
     heads, traces = [], []
     with concurrent.futures.ThreadPoolExecutor(max_workers=vlib.NPROC) as ex:
@@ -336,9 +343,14 @@ def main(ck):
             if rc != 0:
                 m = re.search(r"CRASH signal=(\d+) choices=([\d,]*)", out + err)
                 asan = re.search(r"ERROR: AddressSanitizer: ([a-z-]+)", out + err)
+                # the scenario that died is the one after the last completed header of this invocation
+                done = sum(1 for r in rows if "mode" in r)
+                only = j["args"][j["args"].index("--exact") + 1] if "--exact" in j["args"] else "mix/%d " % done
                 ck.hits.append(dict(what="harness %s (%s) died rc=%d %s %s" % (j["name"], j["cfg"], rc, asan.group(0) if asan else "", (err or out)[-1200:]),
                                     key="crash:" + (asan.group(1) if asan else str(rc)),
-                                    replay=dict(harness="h_c16", config=j["cfg"], args=j["args"], choices=m.group(2) if m else None)))
+                                    replay=dict(harness="h_c16", config=j["cfg"], only=only, choices=m.group(2) if m else None,
+                                                params=[a for a in j["args"] if a.startswith(("mixes=", "pseed="))],
+                                                weak=("--weak" in j["args"]) and j["args"][j["args"].index("--weak") + 1])))
             for r in rows:
                 r["_job"] = j
                 (heads if "mode" in r else traces).append(r)
@@ -380,6 +392,17 @@ def main(ck):
         metas.append((t, seen[term], wk, fk, obs))
     header = "From Coq Require Import List. Import ListNotations.\nFrom YV Require Import model.Event model.EventObs.\n"
     res, logs = vlib.coq_eval_cases(header, cases, "c16", shard=250) if cases else ([], [])
+    # a shard is lost as a whole when one of its terms cannot be evaluated: isolate the culprits
+    lost = [i for i, r in enumerate(res) if r is None]
+    if lost:
+        again, _ = vlib.coq_eval_cases(header, [cases[i] for i in lost[:600]], "c16r", shard=1 if len(lost) <= 40 else 15)
+        for i, r in zip(lost, again):
+            res[i] = r
+        lost2 = [i for i in lost[:600] if res[i] is None]
+        if 0 < len(lost2) <= 40 < len(lost):
+            again, _ = vlib.coq_eval_cases(header, [cases[i] for i in lost2], "c16s", shard=1)
+            for i, r in zip(lost2, again):
+                res[i] = r
     validated, nontriv, bad = 0, set(), []
     for t, i, wk, fk, obs in metas:
         r = res[i]
@@ -409,7 +432,7 @@ def main(ck):
     ck.cov["samples"] = [dict(scenario=t["scenario"], trace=t["trace"], choices=t["choices"], executions=t["count"])
                          for t in pick(lambda x: x["scenario"] == "wg/block_vs_done" and nontrivial(x["trace"])) +
                          pick(lambda x: x["scenario"].startswith("wg/timed") and "!tmo" in x["trace"]) +
-                         pick(lambda x: x["scenario"] == "wg/consume_vs_set" and re.search(r"D0:!free 0", x["trace"])) +
+                         pick(lambda x: x["scenario"].startswith("wg/consume_") and re.search(r"D0:!free 0", x["trace"])) +
                          pick(lambda x: x["scenario"].startswith("mix/") and nontrivial(x["trace"]))]
     for t, why in bad[:10]:
         ck.broken.append(dict(name="correspondence Event.run vs implementation on %s" % t["scenario"],
@@ -421,11 +444,12 @@ def main(ck):
 def replay(ck, path):
     d = json.load(open(path))
     rp = d.get("replay") or {}
-    if not rp.get("scenario"):
+    if not (rp.get("scenario") or rp.get("only")) or rp.get("choices") is None:
         print("nothing to replay: %s" % json.dumps(d)[:2000])
         return 0
     exe, b = vlib.compile_harness(rp.get("config") or "F", [HARNESS], "c16")
-    args = ["--mode", "replay", "--exact", rp["scenario"], "--choices", rp["choices"]]
+    args = ["--mode", "replay", "--choices", rp["choices"].strip(",")]
+    args += ["--exact", rp["scenario"]] if rp.get("scenario") else ["--only", rp["only"]]
     for p in rp.get("params") or []:
         args += ["--param", p]
     if rp.get("weak"):
